@@ -416,7 +416,8 @@ def nanmean(x, axis=None, keepdims=False, dtype=None, out=None):
 
     with np.errstate(invalid="ignore", divide="ignore"):
         if num.ndim:
-            return np.true_divide(num, den, casting="unsafe")
+            out = np.true_divide(num, den, casting="unsafe")
+            return out.astype(num.dtype) if out.dtype != num.dtype else out
         return (num / den).astype(dtype if dtype is not None else x.dtype)
 
 
